@@ -333,6 +333,18 @@ def r6_partial_fields(P, rep, ctx):
             ok = ok and second == "None"
     rep.check(ok, "C14.R6", fi.qual, "the partial field carries the source field's own FieldInfo object (found among the Annotated arguments), or none", fi.loc(), construct="_partial_field FieldInfo",
               message=f"_partial_field hands out {got} as field info: a re-created / filtered FieldInfo loses the alias (and constraints) of the source field, so partials parsed from alias keys and partials converted from instances no longer address the same field and merging them drops a value silently")
+    # partial classes are told apart by the *qualified* name of their source model (module + __qualname__): two models
+    # with the same plain name (inner classes, same class name in one module's functions) must not share a partial
+    pn = P.func(f"{PF}._partial_name")
+    fr = P.func(f"{PF}._partial_forwardref_name")
+    pnf, frf = F(ctx, pn), F(ctx, fr)
+    m1, m2 = pn.params[1], fr.params[1]
+    pn_t = [norm(MM.canon_strings(pnf.xe(v))) for _, v in pnf.returns() if v is not None]
+    fr_t = [norm(MM.canon_strings(frf.xe(v))) for _, v in frf.returns() if v is not None]
+    okn = bool(pn_t) and all(f"{m1}.__qualname__" in t and f"{m1}.__name__" not in t for t in pn_t)
+    okr = bool(fr_t) and all(f"{m2}.__module__" in t and (f"cls._partial_name({m2})" in t or f"{m2}.__qualname__" in t) and f"{m2}.__name__" not in t for t in fr_t)
+    rep.check(okn and okr, "C14.R6", fr.qual, "partial classes are registered under module + qualified name of the source model", fr.loc(), construct="partial class names",
+              message=f"partial names are built as {pn_t} / {fr_t}: without the qualified name, same-named inner models collide and a nested partial resolves to the wrong class (values of the other model's fields are dropped when merging)")
     made = [c for q in (f"{PF}._partial_field", f"{PF}._partial_type", f"{PF}.get_partial") if q in P.functions for c in local_calls(P.func(q).node) if norm(c.func) in ("FieldInfo", "Field")]
     rep.check(not made, "C14.R6", PF, "the partial factory never constructs field infos of its own", P.func(f"{PF}._partial_field").loc(), construct="FieldInfo construction in the factory", message="the partial factory builds new FieldInfo objects instead of passing the source field's through")
 
